@@ -60,6 +60,8 @@ inductive Expr where
   | regexMap (labels : List Bytes) (re : Bytes) (id : Nat)  -- regexMap over column `string` (`re_lbls_<id>`, `re_vals_<id>`)
   | mapDrop (m : Expr) (ps : List (Bytes × Bytes))          -- mapDropFilter: `mapFilter((k,v) -> k!='a' and (k, v)!=('b', 'c'), m)`
   | labelsFp                                                -- `cityHash64(arraySort(arrayZip(mapKeys(labels),mapValues(labels))))` (ParserPlanner, PlannerDrop)
+  -- ---- added for QuantilePlanner (C08 ext); additive
+  | quantileAgg (units scale : Nat) (col : String)          -- `quantile(φ)(col)` with φ = units / 10^scale printed by `%f` (a parametric aggregate function)
 inductive Sel where
   | mk (withs : List (Alias × Sel)) (distinct : Bool) (cols : List Expr) (from_ : Option Expr)
        (joins : List (String × Alias × Expr)) (preWhere wher : Option Expr) (groupBy : List Expr)
@@ -156,6 +158,7 @@ def renderExpr : Expr → Bytes
   | .regexMap labels re id => regexMapText labels re id
   | .mapDrop m ps => b "mapFilter((k,v) -> " ++ joinB (b " and ") (ps.map dropClauseText) ++ b ", " ++ renderExpr m ++ b ")"
   | .labelsFp => b labelsFpText
+  | .quantileAgg units scale col => b "quantile(" ++ b (fixedText units scale) ++ b ")(" ++ b col ++ b ")"
 def renderExprs : List Expr → List Bytes
   | [] => []
   | o :: os => renderExpr o :: renderExprs os
